@@ -206,6 +206,7 @@ class Check:
         budget_cut = 0
         inconclusive = []
         sig_state = {}
+        lemmas = {}
         for s in sorted(self.summaries, key=lambda x: x['name']):
             if s.get('error'):
                 self.harness_errors.append('section %s crashed: %s' % (s['name'], s['error'][-1500:]))
@@ -217,9 +218,15 @@ class Check:
             for k, m in s['aborted']:
                 aborted.append('%s: %s: %s' % (s['name'], k, m))
             for o in s['outcomes']:
+                if o['name'].startswith('lemma:'):
+                    # auxiliary lemma candidates for lemma chains: a failing candidate is not a violation
+                    lemmas[o['status']] = lemmas.get(o['status'], 0) + 1
+                    continue
                 if o['name'].startswith('twin:'):
                     twins_total += 1
-                    if o['status'] == 'cex':
+                    if o['status'] == 'skip':
+                        twins_total -= 1
+                    elif o['status'] == 'cex':
                         twins_sat += 1
                     elif o['status'] == 'ok':
                         self.harness_errors.append('vacuity twin %s/%s came back unsat' % (s['name'], o['name']))
@@ -306,6 +313,7 @@ class Check:
                 'paths_aborted_list': aborted[:20],
                 'paths_budget_cut': budget_cut,
                 'vacuity_twins': {'total': twins_total, 'sat_as_expected': twins_sat},
+                'lemma_candidates': lemmas,
                 'shim_validation_runs': self.validations,
                 'concrete_side_checks': [{'name': n, 'ok': ok, 'detail': d} for n, ok, d in self.concrete][:60],
                 'solver': {'z3': z3.get_version_string(), 'queries': nq, 'solver_seconds': round(tq, 3)},
